@@ -119,6 +119,7 @@ func Check(cfg Config, prop, tier string) int {
 
 	sums := make([]*core.WorkerSummary, workers)
 	errs := make([]string, workers)
+	killed := make([]*killedRun, workers)
 	var wg sync.WaitGroup
 	for w := 0; w < workers; w++ {
 		wg.Add(1)
@@ -130,6 +131,15 @@ func Check(cfg Config, prop, tier string) int {
 				"--worker", strconv.Itoa(w), "--workers", strconv.Itoa(workers), "--deadline", strconv.FormatInt(deadline, 10),
 				"--known", cfg.known(), "--out", out)
 			if code != 0 {
+				if line := fatalLine(string(se)); line != "" {
+					// the Go runtime killed the process (no recover stops that): which run was it in?
+					if cur, err := os.ReadFile(out + ".cur"); err == nil {
+						if i, err := strconv.Atoi(strings.TrimSpace(string(cur))); err == nil {
+							killed[w] = &killedRun{index: i, line: line, stderr: tailOf(string(se), 6000)}
+							return
+						}
+					}
+				}
 				errs[w] = fmt.Sprintf("worker %d exit %d: %s", w, code, tailOf(string(se), 4000))
 				return
 			}
@@ -159,6 +169,9 @@ func Check(cfg Config, prop, tier string) int {
 	keys, states, fps := map[uint64]struct{}{}, map[uint64]struct{}{}, map[uint64]struct{}{}
 	var viols []core.ViolationRecord
 	for _, s := range sums {
+		if s == nil {
+			continue // a worker the runtime killed; handled below
+		}
 		m.Runs += s.Runs
 		m.PlannedRuns += s.PlannedRuns
 		m.FaultFreeRuns += s.FaultFreeRuns
@@ -206,6 +219,22 @@ func Check(cfg Config, prop, tier string) int {
 	exit := 0
 	nviol := 0
 	var replayPath string
+	var firstKilled *killedRun
+	for _, k := range killed {
+		if k != nil && (firstKilled == nil || k.index < firstKilled.index) {
+			firstKilled = k
+		}
+	}
+	if firstKilled != nil && (len(viols) == 0 || firstKilled.index < viols[0].Index) {
+		rp, code := confirmKilled(cfg, prop, tier, seed, firstKilled, workers)
+		if code == 2 {
+			return 2
+		}
+		replayPath, nviol, exit = rp, 1, 1
+		fmt.Printf("violation: property=%s class=process-killed key=%s: run %d kills the process: %s\n", prop, firstKilled.line, firstKilled.index, firstKilled.line)
+		fmt.Printf("VIOLATION property=%s replay=%s\n", prop, rp)
+		viols = nil
+	}
 	if len(viols) > 0 {
 		sort.Slice(viols, func(i, j int) bool { return viols[i].Index < viols[j].Index })
 		v := viols[0]
@@ -218,6 +247,18 @@ func Check(cfg Config, prop, tier string) int {
 		fmt.Printf("violation: %s\n", v.Violation)
 		fmt.Printf("VIOLATION property=%s replay=%s\n", prop, rp)
 		exit = 1
+	}
+	var raceFacts map[string]any
+	if prop == "C09" && exit == 0 && os.Getenv("VERIF_NO_RACE_PROBE") == "" {
+		facts, rp, code := cfg.raceCheck(tier, seed)
+		if code == 2 {
+			return 2
+		}
+		raceFacts = facts
+		if code == 1 {
+			replayPath, nviol, exit = rp, 1, 1
+			fmt.Printf("VIOLATION property=%s replay=%s\n", prop, rp)
+		}
 	}
 	knownKeys := make([]string, 0, len(m.Known))
 	for k := range m.Known {
@@ -264,6 +305,9 @@ func Check(cfg Config, prop, tier string) int {
 	if replayPath != "" {
 		cov["replay"] = replayPath
 	}
+	if raceFacts != nil {
+		cov["race_probe"] = raceFacts
+	}
 	ev := map[string]any{
 		"property_id": prop, "tier": tier, "seed": seed, "level": desc.Level,
 		"coverage": cov, "assumptions": desc.Assumptions, "wall_s": wall, "violations": nviol,
@@ -278,6 +322,73 @@ func Check(cfg Config, prop, tier string) int {
 	fmt.Printf("[%s] runs=%d evals=%d distinct_nontrivial=%d fingerprints=%d states=%d faults=%v wall=%.1fs violations=%d\n",
 		prop, m.Runs, m.Evals, len(keys), len(fps), len(states), m.Faults, wall, nviol)
 	return exit
+}
+
+// killedRun is a run during which the Go runtime ended the worker process.
+type killedRun struct {
+	index  int
+	line   string // the runtime's "fatal error: ..." line
+	stderr string
+}
+
+// fatalLine returns the Go runtime's fatal-error line in a process's stderr, or "".
+func fatalLine(stderr string) string {
+	for _, l := range strings.Split(stderr, "\n") {
+		if strings.HasPrefix(l, "fatal error: ") || strings.HasPrefix(l, "runtime: goroutine stack exceeds") {
+			return strings.TrimSpace(l)
+		}
+	}
+	return ""
+}
+
+// confirmKilled re-executes a run that killed its worker in a process of its own (then after
+// growing suffixes of its predecessors in that worker) and, when the process dies again, writes
+// the replay file: batch seed, run index and warm-up runs identify the execution exactly.
+func confirmKilled(cfg Config, prop, tier string, seed uint64, k *killedRun, workers int) (string, int) {
+	dir := filepath.Join(cfg.VerifDir, "replays")
+	os.MkdirAll(dir, 0o755)
+	out := filepath.Join(dir, fmt.Sprintf("%s-%d-%d.json", prop, seed, k.index))
+	w := k.index % workers
+	var pred []int
+	for i := w; i < k.index; i += workers {
+		pred = append(pred, i)
+	}
+	ks := []int{0}
+	for n := 1; n < len(pred); n *= 2 {
+		ks = append(ks, n)
+	}
+	if len(pred) > 0 {
+		ks = append(ks, len(pred))
+	}
+	for _, n := range ks {
+		warm := pred[len(pred)-n:]
+		if line, se := execOneDies(cfg, prop, tier, seed, k.index, warm); line != "" {
+			rf := &core.ReplayFile{Version: 1, Property: prop, Tier: tier, Index: k.index, BatchSeed: seed, Warmup: warm,
+				Violation: &core.Violation{Property: prop, Class: "process-killed", Key: line,
+					Detail: fmt.Sprintf("run %d of batch seed %d ends the process with a fatal runtime error no recover can stop: %s", k.index, seed, tailOf(se, 3000))}}
+			b, _ := json.MarshalIndent(rf, "", " ")
+			if err := os.WriteFile(out, append(b, '\n'), 0o644); err != nil {
+				fmt.Fprintln(os.Stderr, err)
+				return "", 2
+			}
+			return out, 0
+		}
+	}
+	fmt.Fprintf(os.Stderr, "HARNESS: a worker died during run %d (%s) but the run does not kill a process of its own: %s\n", k.index, k.line, k.stderr)
+	return "", 2
+}
+
+func execOneDies(cfg Config, prop, tier string, seed uint64, index int, warm []int) (string, string) {
+	var ws []string
+	for _, i := range warm {
+		ws = append(ws, strconv.Itoa(i))
+	}
+	_, se, code := cfg.run(prop, nil, "exec-one", "--prop", prop, "--tier", tier, "--seed", strconv.FormatUint(seed, 10),
+		"--index", strconv.Itoa(index), "--known", cfg.known(), "--warmup", strings.Join(ws, ","))
+	if code == 0 {
+		return "", ""
+	}
+	return fatalLine(string(se)), string(se)
 }
 
 // confirm minimises a violation and replays the result in a fresh process.
@@ -351,6 +462,22 @@ func Replay(cfg Config, path string, verbose bool) int {
 	if err := json.Unmarshal(b, &rf); err != nil {
 		fmt.Fprintln(os.Stderr, err)
 		return 2
+	}
+	if rf.Violation != nil && rf.Violation.Class == "data-race" {
+		return cfg.replayRace(&rf, path, verbose)
+	}
+	if rf.Violation != nil && rf.Violation.Class == "process-killed" {
+		line, se := execOneDies(cfg, rf.Property, rf.Tier, rf.BatchSeed, rf.Index, rf.Warmup)
+		if verbose {
+			os.Stderr.WriteString(tailOf(se, 4000))
+		}
+		if line == "" {
+			fmt.Printf("replay: the run did not kill the process (expected %s)\n", rf.Violation.Key)
+			return 3
+		}
+		fmt.Printf("replay: reproduced: the process dies with %q (recorded: %q)\n", line, rf.Violation.Key)
+		fmt.Printf("VIOLATION property=%s replay=%s\n", rf.Property, path)
+		return 1
 	}
 	args := []string{"replay", "--known", cfg.known()}
 	if verbose {
